@@ -850,7 +850,17 @@ func unop(fr *frame, instr *ssa.UnOp, x value) value {
 	}
 	switch instr.Op {
 	case token.ARROW: // receive
-		v, ok := <-x.(chan value)
+		ch := x.(chan value)
+		if ch == nil {
+			unsupported("receive from nil channel (blocks forever)")
+		}
+		var v value
+		var ok bool
+		select {
+		case v, ok = <-ch:
+		default:
+			unsupported("channel receive would block: no other goroutine runs under the engine")
+		}
 		if !ok {
 			v = zero(instr.X.Type().Underlying().(*types.Chan).Elem())
 		}
